@@ -6,25 +6,25 @@ CHECKS = {
  "C01": dict(cat="model_checking", tech="explicit-state BFS over reference-model states (position sets) + conformance replay of every model trace in a real bash",
    text="For every grammar of the enumerated Level-B families the reference model (R6/R7) is explored breadth-first over word sequences up to the depth bound, deduplicated on the position set; every (state, cursor word, COMP_WORDBREAKS mode) trace is replayed in one real bash per grammar that sources the emitted script, and COMPREPLY / return code must equal what the grammar prescribes. Disagreements explained exactly by a listed deviation rule are reported as known findings.",
    note="trusted: reference semantics R6/R7; bash 5.2 as installed; _get_comp_words_by_ref and bind stubs; probe commands with fixed output; the emitted script comes from the library pipeline, bound to the binary by C06", ref="4/C01"),
- "C02": dict(cat="model_checking", tech="explicit-state product automaton (reference NFA x compiled DFA), exhaustive small-scope grammar enumeration",
+ "C02": dict(cat="model_checking", tech="explicit-state product automaton (reference NFA x compiled DFA), exhaustive small-scope grammar enumeration; pairwise Eq/Hash-law and conflation detector on everything interned",
    text="For every enumerated grammar and each of the 4 shells, language equivalence (labels: text, description, fallback level, nested within-word automata) between the reference automaton and complgen's raw and minimized DFA is decided completely by exploring the finite product; grammars are all trees up to the node bound over a colliding vocabulary, so the verdict is exhaustive within that bound.",
    note="trusted: the harness's reference semantics (DESIGN.md section 2), the verif accessors (read-only); descriptions only compared where documented", ref="4/C02"),
- "C03": dict(cat="model_checking", tech="explicit-state product raw x minimized automaton, reachability, Moore partition refinement",
+ "C03": dict(cat="model_checking", tech="explicit-state product raw x minimized automaton (incl. the within-word automata the minimized automaton carries), reachability, Moore partition refinement; exhaustive loop-of-segments and segment-sequence families",
    text="For every automaton of the enumerated family (main and every within-word automaton rebuilt raw from its regex): the raw x minimized product is explored completely (language preserved), every minimized state is shown reachable and co-reachable, and an independent Moore refinement shows all states pairwise distinguishable and the size equal to the harness's own minimal automaton.",
    note="trusted: harness Moore refinement/trim (unit-tested); verif accessors", ref="4/C03"),
  "C06": dict(cat="fault_enumeration", tech="deviation-bounded fault enumeration (all single, for tiny seeds all double, token/byte deviations of every seed) in disposable worker processes + real binary runs",
    text="All single deviations of every seed (double for tiny seeds) and all raw strings up to length 2 run through the library pipeline, four emitters and both DOT writers inside worker processes whose death or stall pinpoints the input; the real binary is run on every seed x shell x destination kind, on a representative of every distinct library outcome class, on all deviations of the smallest seeds and on invalid UTF-8, judged by exit status, stderr, stdout, destination file and byte-equality with the library pipeline.",
-   note="trusted: worker/progress protocol; 10 s stall/timeout limits; 'complete script' = ends with the shell's registration trailer", ref="4/C06"),
+   note="trusted: worker/progress protocol; 60 s stall/timeout horizons (robust to load); 'complete script' = ends with the shell's registration trailer", ref="4/C06"),
  "C07": dict(cat="exploration", tech="exhaustive bounded string enumeration x placements x four emitters with independent per-shell double-quote decoders; bash execution (bash -n, exact candidates, identical-word matching incl. glob near misses, canary)",
    text="Every string up to the length bounds over the full admitted character set / the hot set is placed as top-level literal, literal inside a word and description, emitted for four shells and decoded back with that shell's quoting rules (the decoder fails on anything the shell would expand or on an unterminated constant); in bash the strings are additionally executed: syntax check, exact candidates for every prefix, a word is matched only by the identical literal (near misses with glob characters), nothing is executed or expanded (canary).",
    note="trusted: decoders in harness/src/shells.rs; PowerShell typographic quotes are not judged (cannot be confirmed by execution here)", ref="4/C07"),
  "C08": dict(cat="fault_enumeration", tech="exhaustive placement of every mistake class in every context + verdict of every enumerated grammar against an independent mistake classifier",
    text="Every mistake class of the statement is planted in every context of a fixed context list (every nesting operator, 1-2 definition levels, word/non-word, statement orders, reachability situations for cycles) for all four shells, and additionally every tree of the bounded family is classified by the reference classifier R8; the library pipeline must accept exactly the clean ones and reject the others with a diagnostic of a planted class.",
    note="trusted: reference classifier harness/src/r8.rs; shapes on which statement and code can be read either way are counted as skipped, not judged", ref="4/C08"),
- "C09": dict(cat="model_checking", tech="exhaustive per-state item-pair check on every compiled automaton; `||` vs `|` product automaton (levels erased)",
+ "C09": dict(cat="model_checking", tech="exhaustive per-state item-pair check on every compiled automaton for all four targets; `||` vs `|` product automaton (levels erased); bash differential replay",
    text="Every state of every compiled automaton (main and within-word) of the collision-forcing and general families is visited and every pair of outgoing items examined: equal literal text, or within-word automata with equal word languages (decided by canonical minimal forms), must share the target. The `||` grammar and its `|` rewrite are compared by a complete product with levels erased. Bash-level differential traces are part of C01/C12 machinery.",
    note="trusted: canonical-form language equality of within-word automata; known finding subword-two-readings listed in known-findings.txt", ref="4/C09"),
- "C10": dict(cat="exploration", tech="controlled-nondeterminism sweep: LD_PRELOAD getrandom shim owning the hash seed x ASLR x environment x cwd/stdin matrix on the real binary; exhaustive in-process compile histories in fresh worker processes",
+ "C10": dict(cat="exploration", tech="controlled-nondeterminism sweep: LD_PRELOAD shim owning the hash seed and logging getenv x ASLR x environment (every variable the binary reads, one at a time) x cwd/stdin x destination history on the real binary; exhaustive in-process compile histories in fresh worker processes; deterministic pairwise Eq/Hash-law detector",
    text="The hidden inputs of a process (hash seed via getrandom, address-space layout, environment, cwd, stdin vs path, what the process compiled before) are owned by the harness and swept; script, --dfa and --regex bytes for every corpus and synthetic wide grammar and every shell must equal the reference run in every configuration, every file must hash identically in every in-process history, and in-process results must equal a fresh process's.",
    note="a sweep, not an enumeration, of the seed space (level: exploration); trusted: the shim intercepts the only seed source (evidence reports whether the binary asked for randomness)", ref="4/C10"),
  "C11": dict(cat="exploration", tech="exhaustive enumeration of definition subsets x names x reference sites x targets, product equivalence against the reference + script text observation",
@@ -39,9 +39,9 @@ CHECKS = {
  "C14": dict(cat="exploration", tech="metamorphic exhaustive single-deviation enumeration (every separator at every gap, spellings, parentheses, all definition permutations) with byte comparison; binary replay on the corpus",
    text="For every accepted grammar of the enumerated families the canonical print and every single re-layout (each separator at each token gap, ::=, final ;, redundant parentheses around each node outside a word, every permutation of the definitions) are compiled in-process and compared byte for byte (plus verdict and warning counts); corpus texts go through the real binary in their original layout, the canonical re-print and two re-layouts.",
    note="trusted: harness printer (validated by C05); target shell rotates over the variants, the canonical print is compiled for all four", ref="4/C14"),
- "C15": dict(cat="exploration", tech="exhaustive enumeration of reference structures (definition statuses x reference subsets) against a reachability oracle",
+ "C15": dict(cat="exploration", tech="exhaustive enumeration of reference structures (definition statuses x reference subsets) against a reachability oracle, at library level and on the real binary's stderr/stdout/exit status",
    text="All 6^3 status vectors of three definable names x all subsets of call-variant references x all acyclic body reference subsets x 4 targets: the three warning sets must equal the reachability oracle, every warning span must cover the offending name token, and deleting everything warned about must not change the script bytes or the verdict.",
-   note="trusted: reachability oracle r8::warnings; Level L observes ValidGrammar's maps after main.rs's `_` exemption", ref="4/C15"),
+   note="trusted: reachability oracle r8::warnings; Level L observes ValidGrammar's maps after main.rs's `_` exemption; Level B parses the binary's warning lines", ref="4/C15"),
  "C16": dict(cat="exploration", tech="strict DOT parser (graphviz lexer rules) + structural comparison of the dumps with the compiled automaton / regex positions; binary file binding",
    text="For every grammar of the enumerated families and a menu of hot strings in every textual role, the --dfa dump of each shell and the --regex dump must parse as DOT and show exactly the compiled automaton: one correctly named, labelled and shaped node per state, one labelled edge per transition, one cluster per within-word automaton numbered as in the scripts with entry/exit edges, every regex position as a labelled node; the files written by the real binary equal the library's bytes.",
    note="trusted: harness/src/dot.rs (no dot binary installed)", ref="4/C16"),
